@@ -25,6 +25,8 @@ pub enum StepRes {
     Interned { real: Result<(u8, u64, u32), Pan>, want: (u8, u32) },
     /// eviction / capacity change (takes `&mut db`, no new revision)
     Maint { real: Result<(), Pan> },
+    /// serde round trip into a fresh database (C26)
+    Snap { real: Result<(), Pan> },
     Other,
 }
 
@@ -131,6 +133,10 @@ pub struct StepCtx<'a> {
 }
 
 pub trait Oracle {
+    /// called before a history step is executed (the database has not been touched yet)
+    fn before(&mut self, _world: &World, _step: &Step, _idx: usize) -> Vec<Violation> {
+        vec![]
+    }
     fn step(&mut self, cx: &StepCtx) -> Vec<Violation>;
     /// called once after the last step
     fn finish(&mut self, _case: &Case, _ix: &Index) -> Vec<Violation> {
@@ -216,6 +222,9 @@ pub fn run_seq(case: &Case, oracles: &mut [Box<dyn Oracle>], opts: &SeqOpts) -> 
         let model_before = model.clone();
         let rev_before = rev_num(&world.db);
         let mut eval_holder: Option<Eval> = None;
+        for o in oracles.iter_mut() {
+            violations.extend(o.before(&world, step, idx));
+        }
         let fired_before = crate::fault::fired();
         let res = match step {
             Step::Set { slot, field, val, dur } => {
@@ -259,6 +268,14 @@ pub fn run_seq(case: &Case, oracles: &mut [Box<dyn Oracle>], opts: &SeqOpts) -> 
                 let real = world.intern_top(*ty, *x);
                 StepRes::Interned { real, want: ((*ty).min(3), *x) }
             }
+            Step::Snapshot => match world.snapshot_roundtrip() {
+                Ok(w2) => {
+                    // records of the old database first (none expected), then switch
+                    world = w2;
+                    StepRes::Snap { real: Ok(()) }
+                }
+                Err(p) => StepRes::Snap { real: Err(p) },
+            },
             Step::Fresh => unreachable!(),
         };
         // fault engine: the armed panic fired inside this step
@@ -270,6 +287,7 @@ pub fn run_seq(case: &Case, oracles: &mut [Box<dyn Oracle>], opts: &SeqOpts) -> 
                 StepRes::Write { real, .. } => Some(real.as_ref().err()),
                 StepRes::Interned { real, .. } => Some(real.as_ref().err()),
                 StepRes::Maint { real } => Some(real.as_ref().err()),
+                StepRes::Snap { real } => Some(real.as_ref().err()),
                 StepRes::Other => None,
             };
             match real_err {
@@ -403,6 +421,9 @@ pub fn run_seq(case: &Case, oracles: &mut [Box<dyn Oracle>], opts: &SeqOpts) -> 
         if opts.stop_early && !violations.is_empty() {
             break;
         }
+        if matches!(res, StepRes::Snap { real: Err(_) }) {
+            break; // no restored database to continue with
+        }
     }
     drop(fresh_world);
     salsa::verif_hooks::drain();
@@ -412,7 +433,7 @@ pub fn run_seq(case: &Case, oracles: &mut [Box<dyn Oracle>], opts: &SeqOpts) -> 
     // a mismatch that an oracle classified as a listed-finding pattern ("kf:" rules) also shows
     // up in the fresh-database differential of the same step: keep only the classified one
     let kf_steps: Vec<usize> = violations.iter().filter(|v| v.rule.starts_with("kf:")).map(|v| v.step).collect();
-    violations.retain(|v| !(v.rule == "incremental-differs-from-fresh-db" && kf_steps.contains(&v.step)));
+    violations.retain(|v| !((v.rule == "incremental-differs-from-fresh-db" || v.rule == "snapshot-roundtrip-failed") && kf_steps.contains(&v.step)));
     let mut labels = vec![];
     for o in oracles.iter() {
         labels.extend(o.labels());
@@ -429,6 +450,13 @@ pub fn run_seq(case: &Case, oracles: &mut [Box<dyn Oracle>], opts: &SeqOpts) -> 
 
 /// Compare an observed value with the reference value (structure, not ids).
 pub fn got_matches(g: &Got, r: &ROut) -> Result<(), String> {
+    got_matches_opts(g, r, true)
+}
+
+/// `identity = false` skips the "equal logical structs <=> equal ids inside one result" part
+/// (C26: a struct whose creator is not persisted is legitimately re-created under a new id in
+/// the restored database while a persisted memo still carries the old handle).
+pub fn got_matches_opts(g: &Got, r: &ROut, identity: bool) -> Result<(), String> {
     if g.v != r.v {
         return Err(format!("value {} != reference {}", g.v, r.v));
     }
@@ -450,6 +478,9 @@ pub fn got_matches(g: &Got, r: &ROut) -> Result<(), String> {
         if (gs.0, gs.2) != (rs.0, rs.1) {
             return Err(format!("interned #{i} (ty,x)=({},{}) != reference ({},{})", gs.0, gs.2, rs.0, rs.1));
         }
+    }
+    if !identity {
+        return Ok(());
     }
     // identity consistency inside one result: equal logical structs <=> equal ids
     let mut seen: BTreeMap<u64, RLEnt> = BTreeMap::new();
